@@ -108,7 +108,7 @@ class C06(PropCheck):
                 "choices": [rng.randrange(6) for _ in range(rng.randint(0, 14))],
                 "mask": [rng.randrange(2) for _ in range(rng.randint(1, 5))], "reps": rng.randint(1, 3),
                 "mode": rng.choice(["trickery", "trickery", "referents", "auto"]), "odd": True, "reach_at": rng.randrange(6),
-                "gc_off": rng.random() < 0.25, "logging": rng.random() < 0.15}
+                "gc_off": rng.random() < 0.25, "logging": rng.random() < 0.15, "hostile_module": rng.random() < 0.1}
 
     def gen_chain(self, rng):
         from .. import chains
